@@ -2810,3 +2810,67 @@ M("current-funds-by-iteration", "C14", "C14.total",
 		return ProposalFund{}
 	})
 	return funds"""))
+
+# ------------------------------------------------------------------ round 3, wave 2 (second batch)
+M("lastactive-skips-nonsigners-getter", "C10", "C10.lastactive",
+  ("identity/validator_set.go", """	for _, vote := range lastCommit.Votes {
+		addr := keys.Address(vote.Validator.Address)""", """	for _, vote := range lastCommit.Votes {
+		if !vote.GetSignedLastBlock() {
+			continue
+		}
+		addr := keys.Address(vote.Validator.Address)"""))
+M("addslot-drops-address-flag", "C16", "C16.accesslist",
+  ("vm/statedb.go", """	addrMod, slotMod := s.accessList.AddSlot(addr, slot)
+	if addrMod {
+		// In practice, this should not happen, since there is no way to enter the
+		// scope of 'address' without having the 'address' become already added
+		// to the access list (via call-variant, create, etc).
+		// Better safe than sorry, though
+		s.journal.append(accessListAddAccountChange{&addr})
+	}""", """	_, slotMod := s.accessList.AddSlot(addr, slot)"""))
+R("addslot-flags-switch-form", ["C16"],
+  ("vm/statedb.go", """	if slotMod {
+		s.journal.append(accessListAddSlotChange{
+			address: &addr,
+			slot:    &slot,
+		})
+	}""", """	if !slotMod {
+		return
+	}
+	s.journal.append(accessListAddSlotChange{
+		address: &addr,
+		slot:    &slot,
+	})"""))
+M("newdomain-lowercases", "C20", "C20.name",
+  ("data/ons/domain.go", "	n := GetNameFromString(name)", "	n := GetNameFromString(strings.ToLower(name))"),
+  ("data/ons/domain.go", "import (\n", "import (\n\t\"strings\"\n"))
+R("newdomain-and-exists-lowercase-both", ["C20"],
+  ("data/ons/domain.go", "	n := GetNameFromString(name)", "	n := GetNameFromString(strings.ToLower(name))"),
+  ("data/ons/domain.go", "import (\n", "import (\n\t\"strings\"\n"),
+  ("action/ons/create.go", "	if ctx.Domains.Exists(create.Name) {", "	if ctx.Domains.Exists(ons.GetNameFromString(strings.ToLower(create.Name.String()))) {"),
+  ("action/ons/create.go", "import (\n", "import (\n\t\"strings\"\n"))
+M("expiry-guard-wrong-operand", "C20", "C20.price",
+  ("action/ons/create.go", "	if buyingPrice.BigInt().Cmp(basePrice.BigInt()) < 0 {", "	if buyingPrice.BigInt().Cmp(pricePerBlock.BigInt()) < 0 {"))
+R("expiry-guard-reversed-compare", ["C20"],
+  ("action/ons/create.go", "	if buyingPrice.BigInt().Cmp(basePrice.BigInt()) < 0 {", "	if basePrice.BigInt().Cmp(buyingPrice.BigInt()) > 0 {"))
+M("refund-paid-before-refund-added", "C17", "C17.gas",
+  ("vm/state_transition.go", """	st.gas += refund
+
+	// Return ETH for remaining gas, exchanged at the original rate.
+	remaining := new(big.Int).Mul(new(big.Int).SetUint64(st.gas), st.gasPrice)
+	st.state.AddBalance(st.msg.From(), remaining)
+""", """	remaining := new(big.Int).Mul(new(big.Int).SetUint64(st.gas), st.gasPrice)
+	st.state.AddBalance(st.msg.From(), remaining)
+	st.gas += refund
+"""))
+R("refund-amount-in-local", ["C17"],
+  ("vm/state_transition.go", """	remaining := new(big.Int).Mul(new(big.Int).SetUint64(st.gas), st.gasPrice)
+	st.state.AddBalance(st.msg.From(), remaining)
+""", """	left := st.gas
+	remaining := new(big.Int).Mul(new(big.Int).SetUint64(left), st.gasPrice)
+	st.state.AddBalance(st.msg.From(), remaining)
+"""))
+M("legacyfix-low-64-bits", "C17", "C17.ledger",
+  ("data/balance/keeper.go", "	if len(ea.Balance().Bits()) != 0 {", "	if ea.Balance().Uint64() != 0 {"))
+R("legacyfix-sign-test", ["C17"],
+  ("data/balance/keeper.go", "	if len(ea.Balance().Bits()) != 0 {", "	if ea.Balance().Sign() != 0 {"))
